@@ -129,10 +129,21 @@ Section FieldDes.
       match fuel with
       | O => []
       | S fuel' =>
-        let A' := fa_next_A n D d X A sig in
-        (mtab n d (fun i c => sumn D (fun t => X t i * A' t c)),
-         mtab D D (fa_invC D d A sig), fa_quad n D d X A sig)
-          :: fa_observe fuel' n D d eps X A' (fa_next_sig n D d eps X A sig)
+        (* the same expressions as fa_invC / fa_M / fa_SC / fa_next_A / fa_next_sig / fa_quad, shared by
+           `let` exactly as in Spe_Model.fa_em (the extracted code evaluates every matrix once per round) *)
+        let invC := memo D D (inv D (madd (mmul d A (mtrans A)) sig)) in
+        let AtinvC := memo d D (mmul D (mtrans A) invC) in
+        let M := memo d n (mmul D AtinvC X) in
+        let SC := memo d d (madd (mscale (of_nat n) (msub mI (mmul D AtinvC A)))
+                                 (mmul n M (mtrans M))) in
+        let A' := memo D d (mmul d (mmul n X (mtrans M)) (inv d SC)) in
+        let XXt := mmul n X (mtrans X) in
+        let AMXt := mmul n (mmul d A' M) (mtrans X) in
+        let sig' := memo D D (fun i j => (if Nat.eqb i j then (XXt i i - AMXt i i) / of_nat n
+                                          else 0) + eps) in
+        let q := sumn D (fun t => sumn n (fun i => mmul D invC X t i * X t i)) / of_nat n in
+        (mtab n d (fun i c => sumn D (fun t => X t i * A' t c)), mtab D D invC, q)
+          :: fa_observe fuel' n D d eps X A' sig'
       end.
   End FADes.
 
